@@ -3,12 +3,14 @@
  * parent copy goes on with a forked plan for the child's behaviour and for the
  * moment of iv_popen_request_close, virtual time crossing the 5 s steps. */
 #include <errno.h>
+#include <pthread.h>
 #include <signal.h>
 #include <stdlib.h>
 #include <string.h>
 #include <sys/wait.h>
 #include <iv.h>
 #include <iv_popen.h>
+#include <iv_wait.h>
 #include "sx.h"
 #include "kmodel.h"
 #include "pmodel.h"
@@ -148,22 +150,72 @@ void sx_on_quiescent(void)
 	sx_fail("C19.loop-stuck-child-not-terminated-or-objects-not-released");
 }
 
+static int watcher;
+
+/* still inside fork(), in the parent: a child that exits at once is gone before fork() returns */
+static void on_child(int pid)
+{
+	if (watcher && plan == 0) {
+		sx_cover("popen.child-exits-at-once");
+		child_pid = pid;
+		child_alive = 1;
+		child_dies(P_STATUS_EXITED(0));
+	}
+}
+
+static void stranger_handler(void *cookie, int status, const struct rusage *ru)
+{
+	sx_fail("harness.stranger-child-never-changes-state");
+}
+
+static void scenario(void);
+
+static void *scenario_thread(void *arg)
+{
+	scenario();
+	sx_end();
+	return NULL;
+}
+
 void sx_main(void)
 {
-	static char *argv[2] = { "prog", NULL };
-	int i;
-
 	for_read = (int)sx_opt("read", 1);
-	plan = sx_choose(9);	/* 8: stopped and continued before the close, then only SIGKILL ends it */
+	watcher = (int)sx_opt("watcher", 0);
+	plan = watcher ? sx_choose(2) : sx_choose(9);	/* 8: stopped and continued before the close, then only SIGKILL ends it */
 	close_when = sx_choose(3);
 	p_kill_hook = on_kill;
 	p_exec_hook = on_exec;
 	p_reap_hook = on_reap;
+	p_child_hook = on_child;
 	p_signals_possible = 1;
 	p_opt_deliveries = 1;
 	k_env_exclude = sx_opt("poll", 0) ? "epoll-timerfd epoll ppoll" : NULL;
 	/* descriptors 0,1,2 exist in the process */
 	kfds[0].kind = kfds[1].kind = kfds[2].kind = K_GENERIC;
+	if (watcher) {
+		/* another loop thread of the process watches a child of its own: its SIGCHLD interest is the
+		 * one that gets woken, so the reaping happens in that thread, not in the one that uses popen */
+		static struct iv_wait_interest wi;
+		pthread_t t;
+
+		iv_init();
+		IV_WAIT_INTEREST_INIT(&wi);
+		wi.pid = p_new_child();
+		wi.handler = stranger_handler;
+		iv_wait_interest_register(&wi);
+		pthread_create(&t, NULL, scenario_thread, NULL);
+		sx_cover("popen.reaper-is-another-thread");
+		iv_main();
+		sx_fail("C07.iv_main-returned-with-wait-interest");
+	}
+	scenario();
+}
+
+static void scenario(void)
+{
+	static char *argv[2] = { "prog", NULL };
+	int i;
+
 	iv_init();
 
 	req = malloc(sizeof(*req));
@@ -179,8 +231,10 @@ void sx_main(void)
 	pipe_obj = i;
 	data_fd = iv_popen_request_submit(req);
 	sx_assert(data_fd >= 0, "C19.submit-failed");
-	child_pid = p_children[p_nchildren - 1].pid;
-	child_alive = 1;
+	if (!(watcher && plan == 0)) {
+		child_pid = p_children[p_nchildren - 1].pid;
+		child_alive = 1;
+	}
 	/* parent side: our end of the pipe, the other end closed here */
 	sx_assert(kfds[data_fd].kind == (for_read ? K_PIPE_R : K_PIPE_W) && kfds[data_fd].obj == pipe_obj,
 		  "C19.returned-descriptor-not-our-pipe-end");
@@ -188,7 +242,7 @@ void sx_main(void)
 		if (i != data_fd && (kfds[i].kind == K_PIPE_R || kfds[i].kind == K_PIPE_W) && kfds[i].obj == pipe_obj)
 			sx_fail("C19.child-end-left-open-in-parent");
 
-	if (plan == 0) {
+	if (plan == 0 && !watcher) {
 		sx_cover("popen.child-exits-at-once");
 		child_dies(P_STATUS_EXITED(0));
 	}
@@ -233,7 +287,9 @@ void sx_main(void)
 		sx_assert(!(p_children[i].terminated && !p_children[i].reaped), "C19.zombie-left");
 	sx_assert(!child_alive || 0, "C19.loop-returned-with-child-running");
 	iv_deinit();
-	sx_leak_check(0);
-	sx_assert(k_count_open(1) == 0, "C18.descriptor-leak-after-deinit");
+	if (!watcher) {
+		sx_leak_check(0);
+		sx_assert(k_count_open(1) == 0, "C18.descriptor-leak-after-deinit");
+	}
 	sx_cover("popen.complete-run");
 }
